@@ -771,8 +771,10 @@ impl<'a> Parser<'a> {
                     debug_assert!(base_url.byte_at(scheme_end) == b':');
                     self.serialization
                         .push_str(base_url.slice(..scheme_end + 1));
-                    if let Some(after_prefix) = input.split_prefix("//") {
-                        return self.after_double_slash(after_prefix, scheme_type, scheme_end);
+                    if !scheme_type.is_special() {
+                        if let Some(after_prefix) = input.split_prefix("//") {
+                            return self.after_double_slash(after_prefix, scheme_type, scheme_end);
+                        }
                     }
                     return self.after_double_slash(remaining, scheme_type, scheme_end);
                 }
